@@ -407,6 +407,7 @@ def classify(ctx, tables, cases, impl_lines, model_lines, hits, spec):
     if npm_same:
         for i, line in zip(npm_same, ctx.model("spec_npm_desugar", [sx(cases[i]["ast"]) for i in npm_same])):
             cases[i]["desugar"] = parse_sx(line)
+    cargo_detail(ctx, cases, [h for h in hits if cases[h.idx]["eco"] == "cargo" and impl_lines[h.idx] == model_lines[h.idx]])
     out = []
     for h in hits:
         c = cases[h.idx]
@@ -456,6 +457,39 @@ def inc_bound(pa):
     if m != -1:
         return [M, m + 1, 0]
     return [M + 1, 0, 0]
+
+
+def cargo_detail(ctx, cases, hits):
+    """For Cargo hits on a candidate with a prerelease tag: the crate's own per-comparator verdicts
+    (matches_impl, pre_is_compatible, from the extracted specification) and, from Go, whether the
+    candidate lies in the interval of each comparator taken alone (MatchVersionPrerelease).
+    Stored on the hit as h.detail = [(impl, compat, interval)...]."""
+    todo = [h for h in hits if cases[h.idx]["pv"][h.probe_i][3] and len(cases[h.idx]["ast"]) > 0
+            and impl_ok(cases[h.idx])]
+    if not todo:
+        return
+    det = ctx.model("cargo_detail", [sx([cases[h.idx]["ast"], [cases[h.idx]["pv"][h.probe_i]]]) for h in todo])
+    args, owners = [], []
+    for h in todo:
+        c = cases[h.idx]
+        for t in alternatives("cargo", c["text"])[0]:
+            args.append(sx([1, t, [c["ptexts"][h.probe_i]], []]))
+            owners.append(h)
+    outs = ctx.impl("cmatch", args)
+    ctx.evaluations -= len(args)
+    interval = {}
+    for h, line in zip(owners, outs):
+        r = parse_sx(line)
+        interval.setdefault(id(h), []).append(r[1][0][1] if r[0] == b"ok" and r[1][0][0] != b"verr" else None)
+    for h, line in zip(todo, det):
+        d = parse_sx(line)[0]
+        iv = interval.get(id(h), [])
+        if len(iv) == len(d):
+            h.detail = [(x[0], x[1], i) for x, i in zip(d, iv)]
+
+
+def impl_ok(c):
+    return len(alternatives("cargo", c["text"])[0]) == len(c["ast"])
 
 
 def npm_partials(ast):
@@ -549,7 +583,18 @@ def class_of(c, h, ev, impl_line):
     if "openunit" in ev:
         return "F-C03-1a"
     if eco == "cargo" and cand_pre:
-        return "F-C03-8"
+        det = getattr(h, "detail", None)
+        if det is None:
+            return None
+        # F-C03-8: for some comparator the crate's tag-aware verdict differs from plain interval
+        # membership (a partial or untagged comparator never matches a prerelease of its own
+        # major[.minor[.patch]], = and * need identical tags)
+        if any(i is not None and impl != i for impl, compat, i in det):
+            return "F-C03-8"
+        # F-C03-15: every comparator agrees with its interval; the crate then admits the candidate
+        # iff SOME comparator has its major.minor.patch and a tag (pre_is_compatible), deps.dev
+        # iff a BOUND OF THE RESULTING SPAN has
+        return "F-C03-15"
     return None
 
 
